@@ -96,7 +96,7 @@ FaultSets == Grow(World, {{}}, MaxFaults)
 
 LineOf(W, F, r) == [ev |-> "scan", src |-> "model", id |-> 0, faults |-> SetToSortedSeq(F), calls |-> r.calls, ret |-> r.ret,
                     panic |-> FALSE, hang |-> FALSE, exit |-> FALSE, panicMsg |-> "", lookups |-> [g \in GSet |-> <<>>]]
-PropViolations(W, F, r) == {v \in Violations(LineOf(W, F, r), W, r.W, r) : v[1] \in PropIds}
+PropViolations(W, F, r) == ViolationsFor(PropIds, LineOf(W, F, r), W, r.W, r)
 
 \* C12 / C11 on the specification: what happens to group g does not depend on the state (or the dry flag) of another group h,
 \* unless h stops the controller.  Blank(W, h): h without nodes and pods; Flip(W, h): h with its dry flag inverted.
